@@ -159,22 +159,23 @@ func maxInt64(a, b int64) int64 {
 }
 
 func companionPartExists(cmp *sts.Partial, beg, end int64) bool {
-	overlap := int64(0)
-	var n int64
-	var minEnd int64
-	var maxBeg int64
-	for _, p := range cmp.Parts {
-		maxBeg = maxInt64(beg, p.Beg)
-		minEnd = minInt64(end, p.End)
-		n = minEnd - maxBeg
-		if n > 0 {
-			overlap += n
-			if overlap == end-beg {
-				return true
+	// Extend the covered prefix of [beg, end) with the recorded ranges until it
+	// reaches the end or nothing extends it any further.  (Adding up the
+	// overlaps is wrong as soon as recorded ranges overlap each other.)
+	covered := beg
+	for covered < end {
+		next := covered
+		for _, p := range cmp.Parts {
+			if p.Beg <= covered && p.End > next {
+				next = p.End
 			}
 		}
+		if next == covered {
+			return false
+		}
+		covered = next
 	}
-	return overlap == end-beg
+	return true
 }
 
 func isCompanionComplete(cmp *sts.Partial) bool {
